@@ -1,4 +1,66 @@
-import ErgoModel.Exec
+/-
+  C09 — prune removes exactly finished work; pruned ids are gone for good.
+-/
+import ErgoProofs.Lemmas.ReachInv
+import ErgoProofs.Lemmas.Prune
 namespace Ergo
-theorem C09_placeholder : True := trivial
+
+/-- prune selects exactly the done/canceled tasks and the epics left without an unfinished child -/
+theorem C09_policy (g : Graph) (id : Id) :
+    id ∈ pruneTargets g ↔
+      ∃ t ∈ g.tasks, t.id = id ∧
+        ((t.isEpic = false ∧ (t.st = .done ∨ t.st = .canceled)) ∨
+         (t.isEpic = true ∧ ∀ c ∈ g.tasks, c.isEpic = false → c.epicId ≠ "" → c.epicId = t.id → (c.st = .done ∨ c.st = .canceled))) :=
+  mem_pruneTargets g id
+
+/-- never a task in todo, doing, blocked or error -/
+theorem C09_never_active (g : Graph) (hwf : WF g) (t : Task) (ht : t ∈ g.tasks) (hne : t.isEpic = false)
+    (hst : t.st = .todo ∨ t.st = .doing ∨ t.st = .blocked ∨ t.st = .error) : t.id ∉ pruneTargets g := by
+  apply pruneTargets_never_active g t ht hne hst
+  intro u hu hid
+  -- unique ids
+  have hnd := hwf.nodup
+  by_contra hne'
+  have : ∀ (l : List Task), (l.map (·.id)).Nodup → u ∈ l → t ∈ l → u.id = t.id → u = t := by
+    intro l
+    induction l with
+    | nil => intro _ h; cases h
+    | cons x xs ih =>
+      intro hnd hu ht hid
+      simp only [List.map_cons, List.nodup_cons, List.mem_map, not_exists, not_and] at hnd
+      rcases List.mem_cons.1 hu with rfl | hu' <;> rcases List.mem_cons.1 ht with rfl | ht'
+      · rfl
+      · exact absurd hid.symm (hnd.1 t ht')
+      · exact absurd hid (hnd.1 u hu')
+      · exact ih hnd.2 hu' ht' hid
+  exact hne' (this g.tasks hnd hu ht hid)
+
+/-- the dry run reports exactly the set `--yes` removes, and writes nothing -/
+theorem C09_dry_run_same_set (g : Graph) (agent : String) (now : Time) :
+    (secPrune g false agent now).2 = (secPrune g true agent now).2 ∧ (secPrune g false agent now).1 = .append [] :=
+  prune_dry_eq_apply g agent now
+
+/-- gone for good: whatever the order of a pruned id's create / update / link / tombstone events in a hand-merged log, and
+    whatever follows, it is not live, no edge mentions it … -/
+theorem C09_gone (evs more : List Event) (g : Graph) (id agent : Id) (ts : Option Time)
+    (hmem : Event.tombstone id agent ts ∈ evs) (h : replay (evs ++ more) = .ok g) :
+    g.has id = false ∧ (∀ e ∈ g.deps, e.1 ≠ id ∧ e.2 ≠ id) :=
+  tombstone_stays_gone evs more g id agent ts hmem h
+
+/-- … every command naming it is refused without writing … -/
+theorem C09_refused (g : Graph) (id : Id) (hid : g.tombed id = true) (r : SetReq) (agent : String) (po : PathOutcome) (now : Time) (other : Id) :
+    secUpdate g id r agent po now = .error (.pruned id) ∧
+    linkCheck g false id other = .error (.pruned id) ∧ linkCheck g true id other = .error (.pruned id) := by
+  simp [secUpdate, linkCheck, hid, bind, Except.bind, throw, throwThe, MonadExceptOf.throw]
+
+/-- … and it is never issued again as a new id while its tombstone is in the log -/
+theorem C09_never_reissued (g : Graph) (isEpic : Bool) (epicId title body : String) (follow : SetReq) (ids : List Id) (uuid agent : String)
+    (po : PathOutcome) (now : Time) (w : Write) (id : Id)
+    (h : secCreate g isEpic epicId title body follow ids uuid agent po now = .ok (w, id)) :
+    g.tombed id = false ∧ g.has id = false ∧ id ∈ ids := by
+  have ht := createTail_ok (secCreate_ok h).2
+  have := ht.2.1
+  simp only [Graph.taken, Bool.or_eq_false_iff] at this
+  exact ⟨this.1, this.2, ht.1⟩
+
 end Ergo
